@@ -147,7 +147,7 @@ class refinedmesh(mesh1d):
         mesh1d.__init__(self, ncell, length)
         dx1 = (nratioa+nratiob) * length / ((nratioa+ratio*nratiob)*ncell)
         #dx2 = ratio*dx1
-        nc1 = int((ncell*nratioa)/(nratioa+nratiob))
+        nc1 = int((ncell*nratioa)/(nratioa+nratiob)*(1.+1.e-12)) # integer part, insensitive to the round-off of the float quotient (0.1, 0.2 -> 1/3)
         nc2 = ncell-nc1
         self.xf = np.append(
                     np.linspace(    0.0, dx1*nc1, nc1, endpoint=False),
